@@ -119,6 +119,87 @@ theorem updateTaskRefStatus_fst_unfinished (s : Sys) (key : String) (rj : Job) (
   unfold updateTaskRefStatus
   exact syncJobStatus_fst_unfinished s key _ h
 
+/-! ### the ref `handlePendingTasks` judges a task by (repair of F32) -/
+
+theorem _root_.inj_on_of_nodup_map_task : ∀ {l : List Task}, (l.map (·.name)).Nodup →
+    ∀ {a b : Task}, a ∈ l → b ∈ l → a.name = b.name → a = b
+  | [], _, _, _, h, _, _ => by cases h
+  | x :: rest, hnd, a, b, ha, hb, e => by
+    simp only [List.map_cons, List.nodup_cons] at hnd
+    rcases List.mem_cons.mp ha with rfl | ha'
+    · rcases List.mem_cons.mp hb with rfl | hb'
+      · rfl
+      · exact absurd (List.mem_map.mpr ⟨b, hb', e.symm⟩) hnd.1
+    · rcases List.mem_cons.mp hb with rfl | hb'
+      · exact absurd (List.mem_map.mpr ⟨a, ha', e⟩) hnd.1
+      · exact inj_on_of_nodup_map_task hnd.2 ha' hb' e
+
+/-- the task list of a pass: every task is read from a pod (`ref.name = name`) and a name denotes one
+task value -/
+structure TasksFn (T : List Task) : Prop where
+  ok : ∀ t ∈ T, t.ref.name = t.name
+  fn : ∀ t ∈ T, ∀ t' ∈ T, t'.name = t.name → t' = t
+
+theorem TasksFn.of_nodup {T : List Task} (hnd : (T.map (·.name)).Nodup) (hok : ∀ t ∈ T, t.ref.name = t.name) : TasksFn T := by
+  exact ⟨hok, fun t ht t' ht' hn => _root_.inj_on_of_nodup_map_task hnd ht' ht hn⟩
+
+/-- a task read from a pod: its ref carries the task's name -/
+theorem podTask_refName {p : PodObj} {t : Task} (h : podTask p = some t) : t.ref.name = t.name := by
+  unfold podTask Pod.task at h
+  cases hr : p.pod.taskRef with
+  | none => simp [hr] at h
+  | some r =>
+    simp only [hr, Option.some.injEq] at h
+    subst h
+    unfold Pod.taskRef at hr
+    cases hf : p.pod.finishTimestamp with
+    | none => simp [hf] at hr
+    | some fin =>
+      simp only [hf, Option.some.injEq] at hr
+      subst hr
+      rfl
+
+/-- what `GetTaskRef` records never shows less than the task itself reports -/
+theorem getTaskRef_dom (e : Option TaskRef) (t : Task) :
+    (t.ref.finishTimestamp.isSome = true → (getTaskRef e t).finishTimestamp.isSome = true) ∧
+    (t.ref.runningTimestamp.isSome = true → (getTaskRef e t).runningTimestamp.isSome = true) ∧
+    (getTaskRef e t).creationTimestamp = t.ref.creationTimestamp := by
+  unfold getTaskRef
+  cases e with
+  | none =>
+    simp only
+    split <;> exact ⟨id, id, rfl⟩
+  | some ex =>
+    simp only
+    cases hf : t.ref.finishTimestamp <;> cases hr : t.ref.runningTimestamp <;>
+      cases hxf : ex.finishTimestamp <;> simp [hf, hr, hxf] <;> (try split) <;> simp_all
+
+/-- the ref recorded by the status refresh under the name of a listed task is that task's `GetTaskRef` -/
+theorem pendRef_refreshed {T : List Task} (hT : TasksFn T) (rj : Job) (now : Time) (ex : List TaskRef)
+    (hrj : rj.status.tasks = generateTaskRefs now ex T) (t : Task) (ht : t ∈ T) :
+    pendRef rj t = getTaskRef (lookupRef ex t.name) t := by
+  unfold pendRef findTaskRef
+  have hmem : getTaskRef (lookupRef ex t.name) t ∈ rj.status.tasks := by
+    rw [hrj]; unfold generateTaskRefs
+    rw [mem_sortTaskRefs]
+    exact List.mem_append_left _ (List.mem_map.mpr ⟨t, ht, rfl⟩)
+  cases hfind : rj.status.tasks.find? (fun r => r.name == t.name) with
+  | none =>
+    exfalso
+    have := List.find?_eq_none.mp hfind _ hmem
+    simp only [getTaskRef_name, hT.ok t ht, beq_self_eq_true, not_true_eq_false] at this
+  | some r =>
+    simp only [Option.getD_some]
+    have hr : r ∈ rj.status.tasks := List.mem_of_find?_eq_some hfind
+    have hn : r.name = t.name := by simpa using List.find?_some hfind
+    rw [hrj] at hr
+    rcases mem_generateTaskRefs hr with ⟨t', ht', rfl⟩ | ⟨e, _, hnot, rfl⟩
+    · rw [getTaskRef_name, hT.ok t' ht'] at hn
+      rw [hT.fn t ht t' ht' hn]
+    · exfalso
+      rw [(lostRef_fields now e).1] at hn
+      exact hnot (List.mem_map.mpr ⟨t, ht, hn.symm⟩)
+
 /-! ### the handlers with nothing to do -/
 
 /-- the task is not past its pending deadline: finished, running, still within the timeout, or
@@ -127,10 +208,15 @@ def PendQuiet (clk : Int) (pt : Int) (t : Task) : Prop :=
   t.ref.finishTimestamp.isSome = true ∨ t.ref.runningTimestamp.isSome = true ∨
   t.ref.creationTimestamp.getD zeroTime + pt > clk ∨ t.deletionTimestamp.isSome = true
 
-theorem pendFold_quiet (key : String) (pt : Int) : ∀ (tasks : List Task) (s : Sys) (acc : List Task),
-    (∀ t ∈ tasks, PendQuiet s.clock pt t) →
+/-- `PendQuiet` for the ref `g t` the step judges the task by -/
+def PendQuietG (g : Task → TaskRef) (clk : Int) (pt : Int) (t : Task) : Prop :=
+  (g t).finishTimestamp.isSome = true ∨ (g t).runningTimestamp.isSome = true ∨
+  (g t).creationTimestamp.getD zeroTime + pt > clk ∨ t.deletionTimestamp.isSome = true
+
+theorem pendFold_quiet (key : String) (pt : Int) (g : Task → TaskRef) : ∀ (tasks : List Task) (s : Sys) (acc : List Task),
+    (∀ t ∈ tasks, PendQuietG g s.clock pt t) →
     ∃ s', tasks.foldl (fun (acc : Sys × List Task) (t : Task) =>
-        let ref := t.ref
+        let ref := g t
         if ref.finishTimestamp.isSome then acc
         else if ref.runningTimestamp.isSome then acc
         else
@@ -138,27 +224,27 @@ theorem pendFold_quiet (key : String) (pt : Int) : ∀ (tasks : List Task) (s : 
           if deadline > acc.1.clock then (enqueueAfter acc.1 key deadline, acc.2)
           else if t.deletionTimestamp.isSome then acc
           else (acc.1, acc.2 ++ [t])) (s, acc) = (s', acc) ∧ TimersOnly key s s' ∧
-      ((∀ t ∈ tasks, t.ref.finishTimestamp.isSome = true ∨ t.ref.runningTimestamp.isSome = true) → s' = s)
+      ((∀ t ∈ tasks, (g t).finishTimestamp.isSome = true ∨ (g t).runningTimestamp.isSome = true) → s' = s)
   | [], s, acc, _ => ⟨s, rfl, TimersOnly.refl key s, fun _ => rfl⟩
   | t :: rest, s, acc, h => by
     simp only [List.foldl_cons]
     have ht := h t List.mem_cons_self
-    have hrest : ∀ s1 : Sys, s1.clock = s.clock → ∀ t ∈ rest, PendQuiet s1.clock pt t := by
+    have hrest : ∀ s1 : Sys, s1.clock = s.clock → ∀ t ∈ rest, PendQuietG g s1.clock pt t := by
       intro s1 hc t' ht'
       rw [hc]; exact h t' (List.mem_cons_of_mem _ ht')
-    by_cases h1 : t.ref.finishTimestamp.isSome = true
+    by_cases h1 : (g t).finishTimestamp.isSome = true
     · simp only [h1, ↓reduceIte]
-      obtain ⟨s', e, hto, hex⟩ := pendFold_quiet key pt rest s acc (hrest s rfl)
+      obtain ⟨s', e, hto, hex⟩ := pendFold_quiet key pt g rest s acc (hrest s rfl)
       exact ⟨s', e, hto, fun hall => hex (fun t' ht' => hall t' (List.mem_cons_of_mem _ ht'))⟩
     · simp only [h1, Bool.false_eq_true, ↓reduceIte]
-      by_cases h2 : t.ref.runningTimestamp.isSome = true
+      by_cases h2 : (g t).runningTimestamp.isSome = true
       · simp only [h2, ↓reduceIte]
-        obtain ⟨s', e, hto, hex⟩ := pendFold_quiet key pt rest s acc (hrest s rfl)
+        obtain ⟨s', e, hto, hex⟩ := pendFold_quiet key pt g rest s acc (hrest s rfl)
         exact ⟨s', e, hto, fun hall => hex (fun t' ht' => hall t' (List.mem_cons_of_mem _ ht'))⟩
       · simp only [h2, Bool.false_eq_true, ↓reduceIte]
-        by_cases h3 : t.ref.creationTimestamp.getD zeroTime + pt > s.clock
+        by_cases h3 : (g t).creationTimestamp.getD zeroTime + pt > s.clock
         · simp only [h3, ↓reduceIte]
-          obtain ⟨s', e, hto, _⟩ := pendFold_quiet key pt rest (enqueueAfter s key _) acc (hrest _ rfl)
+          obtain ⟨s', e, hto, _⟩ := pendFold_quiet key pt g rest (enqueueAfter s key _) acc (hrest _ rfl)
           refine ⟨s', e, (enqueueAfter_timersOnly s key _).trans hto, ?_⟩
           intro hall
           rcases hall t List.mem_cons_self with hx | hx
@@ -172,7 +258,7 @@ theorem pendFold_quiet (key : String) (pt : Int) : ∀ (tasks : List Task) (s : 
             · exact absurd hx h3
             · exact hx
           simp only [h4, ↓reduceIte]
-          obtain ⟨s', e, hto, hex⟩ := pendFold_quiet key pt rest s acc (hrest s rfl)
+          obtain ⟨s', e, hto, hex⟩ := pendFold_quiet key pt g rest s acc (hrest s rfl)
           refine ⟨s', e, hto, ?_⟩
           intro hall
           rcases hall t List.mem_cons_self with hx | hx
@@ -181,9 +267,14 @@ theorem pendFold_quiet (key : String) (pt : Int) : ∀ (tasks : List Task) (s : 
 
 /-- `handlePendingTasks` when no task is past its pending deadline: no delete, only timers -/
 theorem handlePending_quiet (s : Sys) (jo : JobObj) (rj : Job) (tasks : List Task)
+    (hT : TasksFn tasks) (now : Time) (ex : List TaskRef) (hrj : rj.status.tasks = generateTaskRefs now ex tasks)
     (h : ∀ pt, getPendingTimeout rj s.cfg = some pt → 0 < pt → ∀ t ∈ tasks, PendQuiet s.clock pt t) :
     ∃ s', handlePendingTasks s jo rj tasks = (s', some rj) ∧ TimersOnly (jobKey jo) s s' ∧
       ((∀ t ∈ tasks, t.ref.finishTimestamp.isSome = true ∨ t.ref.runningTimestamp.isSome = true) → s' = s) := by
+  have hdom : ∀ t ∈ tasks, _ := fun t ht => by
+    have := getTaskRef_dom (lookupRef ex t.name) t
+    rw [← pendRef_refreshed hT rj now ex hrj t ht] at this
+    exact this
   unfold handlePendingTasks
   cases hp : getPendingTimeout rj s.cfg with
   | none => exact ⟨s, rfl, TimersOnly.refl _ s, fun _ => rfl⟩
@@ -192,9 +283,19 @@ theorem handlePending_quiet (s : Sys) (jo : JobObj) (rj : Job) (tasks : List Tas
     by_cases h0 : pt ≤ 0
     · rw [if_pos h0]; exact ⟨s, rfl, TimersOnly.refl _ s, fun _ => rfl⟩
     · rw [if_neg h0]
-      obtain ⟨s', e, hto, hex⟩ := pendFold_quiet (jobKey jo) pt tasks s [] (h pt hp (by omega))
+      obtain ⟨s', e, hto, hex⟩ := pendFold_quiet (jobKey jo) pt (pendRef rj) tasks s [] (by
+        intro t ht
+        obtain ⟨d1, d2, d3⟩ := hdom t ht
+        rcases h pt hp (by omega) t ht with hx | hx | hx | hx
+        · exact Or.inl (d1 hx)
+        · exact Or.inr (Or.inl (d2 hx))
+        · exact Or.inr (Or.inr (Or.inl (by rw [d3]; exact hx)))
+        · exact Or.inr (Or.inr (Or.inr hx)))
       rw [e]
-      exact ⟨s', by simp, hto, hex⟩
+      refine ⟨s', by simp, hto, fun hall => hex (fun t ht => ?_)⟩
+      rcases hall t ht with hx | hx
+      · exact Or.inl ((hdom t ht).1 hx)
+      · exact Or.inr ((hdom t ht).2.1 hx)
 
 /-- `handleKillJob` on a simple Job: nothing -/
 theorem handleKill_simple (s : Sys) (jo : JobObj) (rj : Job) (tasks : List Task) (h : SimpleSpec rj) :
